@@ -4,6 +4,7 @@ import (
 	"encoding/base64"
 	"encoding/json"
 	"fmt"
+	"strings"
 	"testing"
 	"time"
 
@@ -61,8 +62,10 @@ type monC01 struct {
 	// pending[b][kind] = user whose credentialed first step parked the login there
 	pending []map[string]string
 	// spent: one-time credentials the monitor has seen accepted once (storage is not trusted to have consumed them)
-	spent map[string]bool
+	spent                  map[string]bool
 	accepted, rejectedNear int
+	// the second-factor step must itself prove U's factor: judged by the same oracle as C02
+	second monC02
 }
 
 // oneTimeKey names the one-time credential a request presents ("" if none).
@@ -89,6 +92,7 @@ func cookieSpentKey(s *Step) string {
 }
 
 func (c *monC01) Init(m *Machine) {
+	c.second.Init(m)
 	c.spent = map[string]bool{}
 	c.pending = make([]map[string]string, len(m.W.Jars))
 	for i := range c.pending {
@@ -99,6 +103,9 @@ func (c *monC01) Init(m *Machine) {
 func (c *monC01) After(m *Machine, s *Step) *Violation {
 	op := s.Op
 	b := op.B % len(m.W.Jars)
+	if v := c.second.After(m, s); v != nil && strings.Contains(v.Sig, "completed-with-foreign-code") {
+		return violation("C01", "second-factor-step-without-own-factor:"+op.K, "the second-factor step issued a session without a code of that user's own factor: %s", v.Detail)
+	}
 	// other browsers' sessions and cookies never change
 	for j, jar := range m.W.Jars {
 		if j == b && s.Resp != nil {
